@@ -11,7 +11,7 @@ from checks import c10
 PID = "C16"
 RULE = ("Real file_util.py processes in a temp directory. Source image: cassette or disk, written by the tool's own "
         "containers or by the independent writers (arbitrary leaders / scattered granule chains), holding 1-5 files "
-        "with distinct names in upper, lower or mixed case, all kinds, boundary lengths (1..6000 bytes). Target: "
+        "with distinct names in upper, lower or mixed case, all kinds, boundary lengths (1..30000 bytes). Target: "
         "--to_cas / --to_dsk / --to_bin; --files absent, a subset spelled in upper / lower / mixed case, or a name "
         "that matches nothing; chains source -> other kind -> back. Oracle: the independent reader of the target finds "
         "exactly the selected files in source order with identical type, data type, data, and (machine language) load "
@@ -28,7 +28,7 @@ HEALTH = {"files_filter": 0.12, "chain": 0.1, "lowercase_name": 0.12, "to_bin": 
 EXHAUSTIVE = {}
 
 _NAMES = ["HELLO", "hello2", "World", "a", "Zz9", "LONGNAME", "mixedCas", "x1", "PROG", "data", "Q", "abc"]
-_LENS = [1, 2, 200, 254, 255, 256, 257, 510, 2293, 2294, 2299, 2304, 2305, 4000, 6000]
+_LENS = [1, 2, 200, 254, 255, 256, 257, 510, 2293, 2294, 2299, 2304, 2305, 4000, 6000, 4598, 12000, 30000]
 
 
 def _mk_files(picks):
@@ -47,7 +47,7 @@ def _mk_files(picks):
     return out
 
 
-_pick = st.tuples(st.integers(0, 11), st.sampled_from(["ml", "ml", "basic", "ascii", "data", "ml_ascii"]), st.integers(0, 14),
+_pick = st.tuples(st.integers(0, 11), st.sampled_from(["ml", "ml", "basic", "ascii", "data", "ml_ascii"]), st.integers(0, 17),
                   st.integers(0, 10 ** 6), filegen.word, filegen.word)
 _files = st.lists(_pick, min_size=1, max_size=5).map(_mk_files)
 _case = st.fixed_dictionaries(dict(
